@@ -81,13 +81,50 @@ def _unwrap(x):
     return strip_all_casts(x)
 
 
+def referent(p, e):
+    """The object expression e designates on path p: follows reference locals to their initialiser and ?: through the path's decisions
+    (a value local is the object itself)."""
+    fn = p.fn
+    reflocals = {v["decl"]: v.get("init") for n in fn.nodes() if n.get("k") == "decl" for v in n.get("vars", []) if (v.get("t") or {}).get("ref")}
+    for _ in range(8):
+        x = _unwrap(e)
+        if x.get("k") == "cond":
+            d = p.decisions.get(x["id"])
+            if d is None:
+                return x
+            e = x["a"] if d == 0 else x["b"]
+            continue
+        if x.get("k") == "ref" and isinstance(reflocals.get(x.get("decl")), dict):
+            e = reflocals[x["decl"]]
+            continue
+        return x
+    return _unwrap(e)
+
+
 class Positions:
     """Classifies index / iterator / element expressions of one tracked vector as the position the lookup
     found ('found') or the last position ('last'), whatever spelling is used: lookup method or inline
     find_if with the key predicate, begin()+i / std::next, size()-1 / count-1 / std::prev(end()) / back()."""
 
-    def __init__(self, fb, f, vec, look, L):
-        self.fb, self.f, self.vec, self.look, self.L = fb, f, vec, look, L
+    def __init__(self, fb, f, vec, look, L, path=None):
+        self.fb, self.f, self.vec, self.look, self.L, self.path = fb, f, vec, look, L, path
+
+    def on_path(self, p):
+        """the same classifier reading locals and ?: through the decisions of path p"""
+        return Positions(self.fb, self.f, self.vec, self.look, self.L, p)
+
+    def finder(self, e):
+        """e is (a local holding) the result of a pointer finder of this container: a member function that returns the address of
+        the element the lookup found for its first argument, and null exactly when the key is absent; returns the call"""
+        x = _unwrap(facts.expand(self.f, e, 4))
+        if self.path is not None:
+            x = _unwrap(paths.path_value(self.path, x))
+        if x.get("k") != "call" or not x.get("args"):
+            return None
+        g = self.fb.resolve_call(x)
+        if g is None or g is self.look or g.rec != self.L["cls"] or g.key == self.f.key:
+            return None
+        return x if pointer_finder(self.fb, g, self.vec, self.look, self.L) else None
 
     def on_vec(self, x, names):
         x = _unwrap(x)
@@ -128,6 +165,8 @@ class Positions:
         return None
 
     def iterator(self, e):
+        if self.finder(e) is not None:
+            return "found"
         x = _unwrap(facts.expand(self.f, e, 4))
         if x.get("k") != "call":
             return None
@@ -151,6 +190,10 @@ class Positions:
 
     def element(self, e):
         x = _unwrap(e)
+        if self.path is not None:
+            x = referent(self.path, x)
+        if self.finder(x) is not None:
+            return "found"  # the pointer a finder returned (p->..., *p)
         if x.get("k") == "ref":
             x = _unwrap(facts.expand(self.f, x, 2))
         if x.get("k") == "call":
@@ -171,8 +214,13 @@ class Positions:
         """a live fact says the key is present (found index != / < count, found iterator != end()) or, with present=False, absent"""
         ops = ("!=", "<") if present else ("==", ">=")
         for a in fs:
+            if a[0] == "truth" and a[2] == present and self.finder(a[3]) is not None:
+                return True  # if (T* p = find(id)) / if (!p)
             if a[0] != "cmp":
                 continue
+            for x, y, o in ((a[4], a[5], a[2]), (a[5], a[4], a[2])):
+                if o == ("!=" if present else "==") and paths.is_null_value(y) and self.finder(x) is not None:
+                    return True
             for x, y, o in ((a[4], a[5], a[2]), (a[5], a[4], facts._flip_op(a[2]))):
                 if o not in ops:
                     continue
@@ -181,6 +229,39 @@ class Positions:
                 if o in ("!=", "==") and self.iterator(x) == "found" and self.on_vec(facts.expand(self.f, y), ("end", "cend")):
                     return True
         return False
+
+_FINDERS = {}
+
+
+def pointer_finder(fb, g, vec, look, L):
+    """g returns a pointer into vec: on every path either null under 'lookup(first parameter) == count' or the address of
+    the element at the found index under 'lookup != count'."""
+    key = (id(fb), g.key, vec)
+    if key in _FINDERS:
+        return _FINDERS[key]
+    _FINDERS[key] = False
+    ok = bool(g.params) and bool(g.cfg_raw) and (g.raw.get("rett") or {}).get("k") == "ptr" and (g.raw.get("rett") or {}).get("prec") == L["elem"]
+    rows = 0
+    lk = [c for c in g.calls() if fb.resolve_call(c) is look]
+    ok = ok and len(lk) == 1 and strip_all_casts(lk[0]["args"][0]).get("decl") == g.params[0]["decl"]
+    if ok:
+        pos = Positions(fb, g, vec, look, L)
+        for p in paths.enumerate_paths(g):
+            r = p.returns()
+            if r is None or r.get("e") is None:
+                ok = False
+                break
+            v = _unwrap(paths.path_value(p, r["e"]))
+            rows += 1
+            if paths.is_null_value(v):
+                ok = ok and pos.found_guard(p.atoms, present=False)
+            elif v.get("k") == "un" and v.get("op") == "&":
+                ok = ok and pos.on_path(p).element(v["e"]) == "found" and pos.found_guard(p.atoms, present=True)
+            else:
+                ok = False
+    _FINDERS[key] = bool(ok and rows >= 2)
+    return _FINDERS[key]
+
 
 def type_guard(facts_list, kind_value, pol=True, fn=None):
     for a in facts_list:
@@ -286,6 +367,9 @@ def run(ctx):
         posu = Positions(fb, upd, vec, look, L)
         lk = [c for c in upd.calls() if fb.resolve_call(c) is look]
         fiu = [c for c in upd.calls("std::find_if") if posu.iterator(c) == "found"]
+        fk = [c for c in upd.calls() if posu.finder(c) is not None]
+        if not lk and len(fk) == 1:
+            lk = fk  # the lookup runs inside a pointer finder that passes its first argument on
         if lk:
             keyexpr = lk[0]["args"][0]
         elif fiu:
@@ -309,7 +393,7 @@ def run(ctx):
         for f, kind, n in ws:
             key = "%s:%s:%s" % (short, f.name.split("::")[-1], kind)
             if kind == "call:push_back":
-                fs = MustFacts(f).at(n)
+                fs = paths.facts_at(f, n)
                 # guarded by "key absent": found index == count / found iterator == end()
                 g = True if Positions(fb, f, vec, look, L).found_guard(fs, present=False) else None
                 res.check(g is not None and f is upd, "C16-R2", key, n.get("loc"), "push_back only when the lookup returned the element count (key absent)",
@@ -324,11 +408,25 @@ def run(ctx):
                 upd_before = any((callee_name(c2) or "") == L["elem"] + "::update" and "obj" in c2 and strip_all_casts(c2["obj"]).get("decl") in pushed and
                                  strip_all_casts(c2["args"][0]).get("decl") == f.params[0]["decl"] and cfgf.block_for(c2) == cfgf.block_for(n) and
                                  cfgf.pos_of[c2["id"]] < cfgf.pos_of[n["id"]] for c2 in f.calls())
+                if not upd_before and pushed and not paths.loop_header(f):
+                    # the update may go through a reference chosen earlier (`T& target = known ? v[i] : fresh; target.update(packet)`):
+                    # on every feasible path that stores the new element, it received update(packet) first
+                    thru = paths.paths_through(f, n)
+                    def updated_on(p):
+                        for _, c2 in p.elems():
+                            if c2["id"] == n["id"]:
+                                return False
+                            if c2.get("k") == "call" and (callee_name(c2) or "") == L["elem"] + "::update" and "obj" in c2 and c2.get("args") and \
+                                    strip_all_casts(c2["args"][0]).get("decl") == f.params[0]["decl"] and \
+                                    referent(p, c2["obj"]).get("decl") in pushed:
+                                return True
+                        return False
+                    upd_before = bool(thru) and all(updated_on(p) for p in thru)
                 res.check(upd_before, "C16-R4", "%s:new-element-updated" % short, n.get("loc"),
                           "new element receives update(packet) before it is stored", "new element is stored without update(packet)")
             elif kind in ("call:pop_back", "call:erase"):
                 pos = Positions(fb, f, vec, look, L)
-                fs = MustFacts(f).at(n)
+                fs = paths.facts_at(f, n)
                 g = pos.found_guard(fs, present=True)
                 cfg = f.cfg
 
@@ -396,6 +494,14 @@ def run(ctx):
                 g = posu.found_guard(MustFacts(upd).at(c), present=True)
                 same_pkt = strip_all_casts(c["args"][0]).get("decl") == upd.params[0]["decl"]
                 found_ok = found_ok or (g and same_pkt)
+        if not found_ok and not paths.loop_header(upd):
+            # path form: every feasible path on which the key is known to be present applies update(packet) to the found element
+            present_paths = [p for p in paths.enumerate_paths(upd) if p.end == "exit" and posu.found_guard(p.atoms, present=True)]
+            def replaced_on(p):
+                pp = posu.on_path(p)
+                return any(c.get("k") == "call" and (callee_name(c) or "") == L["elem"] + "::update" and "obj" in c and c.get("args") and
+                           strip_all_casts(c["args"][0]).get("decl") == upd.params[0]["decl"] and pp.element(c["obj"]) == "found" for _, c in p.elems())
+            found_ok = bool(present_paths) and all(replaced_on(p) for p in present_paths)
         res.check(found_ok, "C16-R4", "%s:found-updated" % short, upd.loc, "found: element [found index] receives update(packet)",
                   "on the found branch the element at the found index is not updated with the packet")
     # ---- DeviceStatus::update dispatch, InterfaceStatus::update
